@@ -3,8 +3,10 @@
 package snaps
 
 import (
+	"os"
 	"strings"
 
+	"github.com/gkampitakis/ciinfo"
 	"github.com/gkampitakis/go-snaps/internal/vxrt"
 )
 
@@ -136,7 +138,7 @@ func H_clean() {
 		ts.end()
 		vxrt.Assert(len(ta.errors)+len(tb.errors)+len(ts.errors) == 0, "setup:program-passes")
 	}
-	ci, env := isCI, updateVAR
+	ci, env := ciinfo.IsCI, os.Getenv("UPDATE_SNAPS")
 	cleanMode := !ci && (env == "true" || env == "clean")
 	sorting := sortOpt && !ci
 	stamp := vxrt.FSStamp()
@@ -151,14 +153,14 @@ func H_clean() {
 	switch prop {
 	case 7: // C07: nothing addressed in this run is lost, altered or listed
 		for _, e := range []struct{ id, body string }{{"[TestA - 1]", bA1}, {"[TestA - 2]", bA2}, {"[" + nameB + " - 1]", bB1}} {
-			got, _, err := getPrevSnapshot(e.id, path)
+			got, _, err := refPrev(e.id, path)
 			vxrt.Assert(err == nil, "C07:addressed-entry-still-present")
 			vxrt.Assert(vxrt.Eq(got, e.body), "C07:addressed-entry-value-unchanged")
 		}
 		vxrt.Assert(readFile(dir+"/"+fileS) == "sv", "C07:addressed-standalone-untouched")
-		gg, _, gerr := getPrevSnapshot("[TestA - 1]", gpath)
+		gg, _, gerr := refPrev("[TestA - 1]", gpath)
 		vxrt.Assert(gerr == nil && gg == "g1", "C07:addressed-entry-in-second-file-unchanged")
-		ee, _, eerr := getPrevSnapshot("[TestA - 1]", epath)
+		ee, _, eerr := refPrev("[TestA - 1]", epath)
 		vxrt.Assert(eerr == nil && ee == "e1", "C07:addressed-entry-in-earlier-file-unchanged")
 		for _, id := range []string{"TestA - 1", "TestA - 2", nameB + " - 1"} {
 			if id == "TestA - 2" && gStale {
@@ -166,7 +168,7 @@ func H_clean() {
 				// (the summary does not name the file of an entry)
 				continue
 			}
-			vxrt.Assert(!strings.Contains(out, bulletSymbol+id+"\n"), "C07:addressed-entry-not-listed")
+			vxrt.Assert(!strings.Contains(out, vxBullet+id+"\n"), "C07:addressed-entry-not-listed")
 		}
 		for _, f := range []string{"/" + fileS + "\n", "/f.snap\n", "/g.snap\n", "/e.snap\n"} {
 			vxrt.Assert(!strings.Contains(out, dir+f), "C07:addressed-file-not-listed")
@@ -177,8 +179,8 @@ func H_clean() {
 		}
 		for _, f := range staleFrames {
 			id := f[2:strings.Index(f, "]")]
-			vxrt.Assert(strings.Contains(out, bulletSymbol+id+"\n"), "C09:stale-entry-reported")
-			_, _, err := getPrevSnapshot("["+id+"]", path)
+			vxrt.Assert(strings.Contains(out, vxBullet+id+"\n"), "C09:stale-entry-reported")
+			_, _, err := refPrev("["+id+"]", path)
 			if cleanMode {
 				vxrt.Assert(err != nil, "C09:stale-entry-removed-in-clean-mode")
 			} else {
@@ -187,21 +189,21 @@ func H_clean() {
 		}
 		if gStale {
 			vxrt.Reach("second-file-stale")
-			_, _, gerr := getPrevSnapshot("[TestA - 2]", gpath)
+			_, _, gerr := refPrev("[TestA - 2]", gpath)
 			vxrt.Assert((gerr != nil) == cleanMode, "C09:stale-entry-of-second-file-removed-iff-clean-mode")
-			f2, _, ferr := getPrevSnapshot("[TestA - 2]", path)
+			f2, _, ferr := refPrev("[TestA - 2]", path)
 			vxrt.Assert(ferr == nil && vxrt.Eq(f2, bA2), "C09:live-entry-with-the-same-id-in-other-file-kept")
 		}
 		if hasStaleExt {
-			vxrt.Assert(strings.Contains(out, bulletSymbol+dir+"/TestOld_1.snap.json\n"), "C09:stale-file-with-custom-extension-reported")
+			vxrt.Assert(strings.Contains(out, vxBullet+dir+"/TestOld_1.snap.json\n"), "C09:stale-file-with-custom-extension-reported")
 			vxrt.Assert((readFile(dir+"/TestOld_1.snap.json") == "<missing>") == cleanMode, "C09:stale-file-with-custom-extension-removed-iff-clean-mode")
 		}
 		if hasStaleStandalone {
-			vxrt.Assert(strings.Contains(out, bulletSymbol+dir+"/TestS_2.snap\n"), "C09:stale-standalone-reported")
+			vxrt.Assert(strings.Contains(out, vxBullet+dir+"/TestS_2.snap\n"), "C09:stale-standalone-reported")
 			vxrt.Assert((readFile(dir+"/TestS_2.snap") == "<missing>") == cleanMode, "C09:stale-standalone-removed-iff-clean-mode")
 		}
 		if hasStaleFile {
-			vxrt.Assert(strings.Contains(out, bulletSymbol+dir+"/old.snap\n"), "C09:stale-file-reported")
+			vxrt.Assert(strings.Contains(out, vxBullet+dir+"/old.snap\n"), "C09:stale-file-reported")
 			vxrt.Assert((readFile(dir+"/old.snap") == "<missing>") == cleanMode, "C09:stale-file-removed-iff-clean-mode")
 		}
 		if !cleanMode && !sorting {
@@ -211,7 +213,7 @@ func H_clean() {
 			// sorting may only reorder: every frame still there
 			for _, f := range append(append([]string{}, frames...), staleFrames...) {
 				id := f[2:strings.Index(f, "]")]
-				_, _, err := getPrevSnapshot("["+id+"]", path)
+				_, _, err := refPrev("["+id+"]", path)
 				vxrt.Assert(err == nil, "C09:no-entry-removed-outside-clean-mode")
 			}
 			vxrt.Assert(len(after) == len(before), "C09:file-size-unchanged-outside-clean-mode")
@@ -223,7 +225,7 @@ func H_clean() {
 				wantListed++
 			}
 		}
-		vxrt.Assert(strings.Count(out, bulletSymbol) == wantListed, "C09:exactly-the-stale-items-are-listed")
+		vxrt.Assert(strings.Count(out, vxBullet) == wantListed, "C09:exactly-the-stale-items-are-listed")
 		vxrt.Assert(readFile(dir+"/notes.txt") == "keep", "C09:non-snap-file-untouched")
 		vxrt.Assert(readFile(dir+"/sub.snaps/inner.snap") == "keep-inner", "C09:sub-directory-untouched")
 		vxrt.Assert(readFile(vxrt.Dir()+"2/other.snap") == "keep-other", "C09:unvisited-directory-untouched")
@@ -232,7 +234,7 @@ func H_clean() {
 		if !cleanMode {
 			for _, f := range append(append([]string{}, frames...), staleFrames...) {
 				id := f[2:strings.Index(f, "]")]
-				_, _, err := getPrevSnapshot("["+id+"]", path)
+				_, _, err := refPrev("["+id+"]", path)
 				vxrt.Assert(err == nil, "C05:clean-deletes-only-in-clean-mode")
 			}
 			vxrt.Assert(!hasStaleFile || readFile(dir+"/old.snap") != "<missing>", "C05:clean-deletes-only-in-clean-mode")
@@ -282,9 +284,9 @@ func H_C07_symlink() {
 	Clean(nil)
 	out := vxrt.Stdout()
 	vxrt.Assert(!strings.Contains(out, "/f.snap\n") && !strings.Contains(out, "TestA_1.snap"), "C07:addressed-file-not-listed")
-	vxrt.Assert(!strings.Contains(out, bulletSymbol+"TestA - 1\n"), "C07:addressed-entry-not-listed")
-	got, _, err := getPrevSnapshot("[TestA - 1]", realDir+"/__snapshots__/f.snap")
+	vxrt.Assert(!strings.Contains(out, vxBullet+"TestA - 1\n"), "C07:addressed-entry-not-listed")
+	got, _, err := refPrev("[TestA - 1]", realDir+"/__snapshots__/f.snap")
 	vxrt.Assert(err == nil && got == "a" && readFile(realDir+"/__snapshots__/TestA_1.snap") == "s", "C07:addressed-entry-value-unchanged")
-	vxrt.Assert(strings.Contains(out, bulletSymbol+"TestA - 2\n") && strings.Contains(out, "old.snap\n"), "C09:stale-entry-reported")
+	vxrt.Assert(strings.Contains(out, vxBullet+"TestA - 2\n") && strings.Contains(out, "old.snap\n"), "C09:stale-entry-reported")
 	vxrt.Assert((readFile(realDir+"/__snapshots__/old.snap") == "<missing>") == clean, "C09:stale-file-removed-iff-clean-mode")
 }
